@@ -3,8 +3,10 @@ package runner
 import (
 	"context"
 	"fmt"
+	"runtime"
 	"runtime/debug"
 	"strings"
+	"time"
 
 	"github.com/prometheus/prometheus/promql/parser"
 
@@ -26,7 +28,36 @@ func Eval(c *core.Case) (v core.Verdict) {
 	if !ok {
 		return core.Verdict{Status: "infra", Detail: "no evaluator for " + c.Prop}
 	}
-	return fn(c)
+	if baseGoroutines == 0 {
+		baseGoroutines = runtime.NumGoroutine()
+	}
+	v = fn(c)
+	// Wait for the goroutines of this case to end so that a late crash is
+	// attributed to the case that caused it.
+	if !WaitQuiet(2 * time.Second) {
+		v.Features = append(v.Features, "goroutines-linger")
+	}
+	return v
+}
+
+var baseGoroutines int
+
+// WaitQuiet waits until no goroutines beyond the idle baseline remain.
+func WaitQuiet(max time.Duration) bool {
+	deadline := time.Now().Add(max)
+	for i := 0; ; i++ {
+		if runtime.NumGoroutine() <= baseGoroutines {
+			return true
+		}
+		if time.Now().After(deadline) {
+			return false
+		}
+		if i < 50 {
+			runtime.Gosched()
+		} else {
+			time.Sleep(200 * time.Microsecond)
+		}
+	}
 }
 
 var evaluators = map[string]func(*core.Case) core.Verdict{}
@@ -231,6 +262,14 @@ func Differential(c *core.Case) diffOutcome {
 	}
 	out.res, out.ref = res, refRes
 	out.diff = oracle.Equal(res, refRes, oracle.DefaultTol(Scale(c.Series)))
+	if out.diff != "" && res.Err == nil && refRes.Err == nil && (hasFeat(out.feats, "agg:topk") || hasFeat(out.feats, "agg:bottomk")) {
+		// A tie at the cut of a topk/bottomk has no defined winner; only then is a
+		// difference in the selected series not judged.
+		if TopkAmbiguous(c, expr, st) {
+			out.diff = ""
+			out.feats = append(out.feats, "topk-tie-not-judged")
+		}
+	}
 	out.wf = oracle.WellFormed(res, expr.Type(), oracle.Window{Start: c.Start, End: c.End, Step: c.Step})
 	return out
 }
